@@ -140,6 +140,17 @@ def work(item):
             sc = A.scale_vector(k, vu)
             out.append(decide(q, enc, f"{kind} scaling equals Cartesian scaling", [x - k * y for x, y in zip(to_cart(kind, pad(sc.components)), cu)], dom,
                               {"library": [str(x) for x in sc.components]}))
+            # magnitude of the scaled vector (k may be negative: the scaled radial component then is): |k v| = |k| |v| >= 0
+            enc = new_enc()
+            dom = curv_domain(enc, kind, u)
+            ms = A.vector_magnitude(sc)
+            out.append(decide(q, enc, f"{kind} magnitude^2 of the scaled vector equals the Cartesian one", [ms**2 - k**2 * sum(x * x for x in cu)], dom, {"library": str(ms)[:100]}))
+            enc = new_enc()
+            dom = curv_domain(enc, kind, u)
+            mt = enc.tr(ms)
+            r, _ = q.check(enc.assume + enc.side + enc.domain + dom + angle_facts(enc) + [mt < 0])
+            out.append({"name": f"{kind} magnitude of the scaled vector >= 0", "verdict": "discharged" if r == "unsat" else ("candidate" if r == "sat" else "inconclusive"), "why": r,
+                        "vals": {"note": "negative scale factor"}})
             # fewer components behave as zero-padded
             for n in (1, 2):
                 enc = new_enc()
@@ -230,6 +241,8 @@ try:
             ok = close(A.dot_vectors(vu, vw), sum(x * y for x, y in zip(cu, cw))) and close(A.vector_magnitude(vu)**2, sum(x * x for x in cu)) and N(A.vector_magnitude(vu)) >= 0
             ok = ok and all(close(x, k * y) for x, y in zip(c11.to_cart(kind, pad(A.scale_vector(k, vu).components)), cu))
             ok = ok and close(A.dot_vectors(vu, vw), A.dot_vectors(vu.rebase(C), vw.rebase(C)))
+            ms = A.vector_magnitude(A.scale_vector(k, vu))
+            ok = ok and close(ms**2, k**2 * sum(x * x for x in cu)) and N(ms) >= 0
             for n in (1, 2):
                 ok = ok and close(A.dot_vectors(Vector(list(u[:n]), B), vw), A.dot_vectors(Vector(list(u[:n]) + [0] * (3 - n), B), vw))
             if not ok: bad = True; print("products differ at", u, w)
